@@ -67,6 +67,9 @@ static long vf_count(const unsigned char *d,size_t n,int seekmode,long *total,lo
   ov_clear(&vf);
   return cnt;
 }
+typedef struct { long bits; int W; } rpk_t;
+static double window_check(const rpk_t *p,int n,long bs0,long bs1,double rate,double lim_rate,double reservoir,int is_max,int *wi,int *wj,double *wsum);
+static int blockflags_from_headers(const pktlist_t *pk,rpk_t *out,int *n,long *bs0,long *bs1);
 static void case_c04(const drvargs_t *a,long id){
   rng_t r; rng_seed(&r,a->seed,4,(uint64_t)id);
   enccfg_t c; enccfg_default(&c); char desc[300];
@@ -90,8 +93,16 @@ static void case_c04(const drvargs_t *a,long id){
     c.br_nom=nom; c.br_max=-1; c.br_min=-1;
     if(kind==1) c.br_max=(long)(nom*1.25); else if(kind==2) c.br_min=(long)(nom*0.75); else if(kind==3){ c.br_max=nom; c.br_min=nom; }
   } else if(mk==6) c.mode=ENC_INIT_VBR;
+  int biting=0;
+  if(id%16==13 && ncls==2){ /* a hard maximum that really bites: low limit, small reservoir, full-band noise - the manager then has to truncate packets, and truncated packets are valid audio */
+    biting=1; c.mode=ENC_MANAGED; if(c.channels>2) c.channels=2; if(c.rate<32000) c.rate=44100;
+    c.br_nom=(long)(c.rate*c.channels*(0.45+0.35*rng_unit(&r))); c.br_max=-1; c.br_min=-1;
+    c.have_rm2=1; c.rm2_reservoir_bits_secs=0.05+0.2*rng_unit(&r); c.rm2_bias=rng_unit(&r)*0.5; c.rm2_damping=0;
+    c.rm2_avg_off=1; c.rm2_max_kbps=(long)(c.br_nom*(0.7+0.4*rng_unit(&r))/1000);   /* quality stays at the nominal set-up, the limit sits at or below it */
+    if(N<20000) N=20000+(long)rng_below(&r,40000); }
   static const int sigs[]={SIG_SILENCE,SIG_NOISE,SIG_ENDCLICK,SIG_DC,SIG_MULTI,SIG_CLICKS,SIG_BURSTS,SIG_IMPULSE,SIG_OVER,SIG_DENORM,SIG_ALT,SIG_SWEEP};
   c.sig=sigs[rng_below(&r,12)]; c.sigseed=rng_next(&r); c.nsamples=N;
+  if(biting) c.sig= rng_chance(&r,0.7)?SIG_NOISE:SIG_OVER;
   c.chunk=(int)rng_below(&r,CHUNK_NKINDS); if(c.chunk==CHUNK_1 && N>20000) c.chunk=CHUNK_RANDOM;
   c.lazy=(int)rng_below(&r,2);
   if(c.channels>8 && N>6000){ N%=6000; c.nsamples=N; }
@@ -120,6 +131,12 @@ static void case_c04(const drvargs_t *a,long id){
     if(!L->e_o_s) res_viol("C04","last-without-eos","%s",desc);
     if(L->granulepos!=N) res_viol("C04","last-granule-not-N","last granule %lld, N=%ld: %s",(long long)L->granulepos,N,desc);
   }
+  if(biting && er.managed && er.rm_max_kbps_x1000>0){ /* did the limit bite?  (window fill of the hard-limit reservoir, as in C14) */
+    static rpk_t rp[4096]; int rn=0; long b0,b1; int wi,wj; double ws;
+    if(na<=4096 && blockflags_from_headers(&er.pk,rp,&rn,&b0,&b1)==0 && er.rm_reservoir_bits>0){
+      window_check(rp,rn,b0,b1,(double)c.rate,(double)er.rm_max_kbps_x1000,er.rm_reservoir_bits,1,&wi,&wj,&ws);
+      res_metric("c04_hard_max_window_fill_fraction",ws/er.rm_reservoir_bits);
+      if(ws>=0.9*(1.0-er.rm_bias)*er.rm_reservoir_bits) res_count("encodes_with_saturated_hard_maximum",1); } }   /* the reservoir never drains below bias x size when only a maximum is set */
   /* conservation through the packet API */
   pdec_t pd; res_eval(1);
   if(pdec_run(&er.pk,&pd,0)) res_viol("C05","header-rejected","headerin %d: %s",pd.hdr_err,desc);
@@ -295,8 +312,7 @@ static void case_c06(const drvargs_t *a,long id,const char *envpath){
 }
 
 /* ------------------------------------------------------------------ C14 */
-typedef struct { long bits; int W; } rpk_t;
-/* max-subarray check.  returns worst excess over (reservoir + 8) or <=0 */
+/* max-subarray check.  returns worst excess over the reservoir or <=0 */
 static double window_check(const rpk_t *p,int n,long bs0,long bs1,double rate,double lim_rate,double reservoir,int is_max,int *wi,int *wj,double *wsum){
   /* per packet term: sign*(bits - lim_rate*dur/rate) - slack, dur = bs[W]/2 (the manager's accounting) */
   double best=-1e300, cur=0; int cs=0; *wi=*wj=0;
@@ -309,7 +325,7 @@ static double window_check(const rpk_t *p,int n,long bs0,long bs1,double rate,do
     if(cur>best){ best=cur; *wi=cs; *wj=i; }
   }
   *wsum=best;
-  return best-(reservoir+8.0);
+  return best-(reservoir+(reservoir<8.0?8.0:0.0));   /* the manager books whole bytes, so its invariant is exact - except that a reservoir smaller than one byte cannot be honoured by whole-byte packets */
 }
 static int blockflags_from_headers(const pktlist_t *pk,rpk_t *out,int *n,long *bs0,long *bs1){
   vorbis_info vi; vorbis_comment vc; ogg_packet op; int ok=1;
